@@ -5,14 +5,12 @@ package main
 import (
 	"crypto/x509"
 	"fmt"
-	"strings"
 	"math/big"
 	"math/rand"
 	"os"
 	"path/filepath"
+	"strings"
 	"time"
-
-	"go.uber.org/zap"
 
 	"github.com/gr33nbl00d/caddy-revocation-validator/config"
 	"github.com/gr33nbl00d/caddy-revocation-validator/crl"
@@ -20,6 +18,7 @@ import (
 	"verif/harness/lab/crlgen"
 	"verif/harness/lab/der"
 	"verif/harness/lab/gen"
+	"verif/harness/lab/l2"
 	"verif/harness/lab/origin"
 	"verif/harness/lab/pki"
 	"verif/harness/lab/report"
@@ -52,7 +51,7 @@ func (l *lab) checker() *crl.CRLRevocationChecker {
 		UpdateIntervalParsed: time.Hour, TrustedSignatureCerts: l.trusted,
 		CDPConfig: &config.CDPConfig{CRLFetchModeParsed: config.CRLFetchModeActively, CRLCDPStrict: true}}
 	c := &crl.CRLRevocationChecker{}
-	if err := c.Provision(cfg, zap.NewNop()); err != nil {
+	if err := c.Provision(cfg, l2.DebugLogger()); err != nil {
 		panic("harness: provision: " + err.Error())
 	}
 	l.chk, l.used = c, 1
